@@ -330,7 +330,7 @@ func (fr *Frame) mergeVals(ins []condVal, t types.Type, hint string) Val {
 		if l0.Idx != "" {
 			nl.Idx = fr.ctx.freshConst(hint+".idx", "Int")
 			for _, cv := range ins {
-				fr.ctx.assert(implies(cv.cond, eq(nl.Idx, cv.v.Loc.Idx)), "phi loc")
+				fr.ctx.assert(implies(cv.cond, eq(nl.Idx, add(orZero(cv.v.Loc.Off), cv.v.Loc.Idx))), "phi loc")
 			}
 		}
 		return Val{K: KLoc, T: t, Loc: nl}
@@ -380,7 +380,7 @@ func sameVal(a, b Val) bool {
 		}
 		return true
 	case KLoc:
-		return a.Loc.Comp == b.Loc.Comp && a.Loc.Ref == b.Loc.Ref && a.Loc.Idx == b.Loc.Idx
+		return a.Loc.Comp == b.Loc.Comp && a.Loc.Ref == b.Loc.Ref && a.Loc.Idx == b.Loc.Idx && orZero(a.Loc.Off) == orZero(b.Loc.Off)
 	case KFunc:
 		return a.A == b.A && a.Fn == b.Fn
 	}
@@ -407,7 +407,7 @@ func eqVal(a, b Val) Term {
 		if b.K != KLoc || a.Loc.Comp != b.Loc.Comp {
 			encFail("eqVal: location component mismatch")
 		}
-		return and(eq(orZero(a.Loc.Ref), orZero(b.Loc.Ref)), eq(orZero(a.Loc.Idx), orZero(b.Loc.Idx)))
+		return and(eq(orZero(a.Loc.Ref), orZero(b.Loc.Ref)), eq(add(orZero(a.Loc.Off), orZero(a.Loc.Idx)), add(orZero(b.Loc.Off), orZero(b.Loc.Idx))))
 	case KUnit:
 		return "true"
 	}
